@@ -377,8 +377,8 @@ fn c05_type<T: KS, L: Lab>(out: &mut Out, rng0: &mut Rng, tier: &Tier, nsets: us
     }
 }
 
-/// > 65535 observations of one k-mer (40000 A^K + 30000 T^K): the saturating u16 count (thorough tier, shard 0 only)
-fn saturating<T: KS>(out: &mut Out, stats: &mut Stats) {
+/// > 65535 observations of one k-mer (40000 A^K + 30000 T^K): the saturating u16 count (shard 0 only; quick tier: thresholds 1 and 65536)
+fn saturating<T: KS>(out: &mut Out, stats: &mut Stats, thorough: bool) {
     let k = T::k();
     // many reads of 250 k-mers each (the model's positional iterator is quadratic in the read length)
     let mut reads: Vec<Read> = Vec::new();
@@ -398,6 +398,9 @@ fn saturating<T: KS>(out: &mut Out, stats: &mut Stats) {
         (true, 40001, 1, 0),
         (false, 3, 100_000, 1),
     ] {
+        if !thorough && !(thr == 1 || thr == 65536) {
+            continue;
+        }
         let p = Params { stranded, report_all: true, kind: 0, thr, mem, unit };
         let r = run::<T, u8>(&reads, &p, 0, &[]);
         let rv = reads_v::<u8>(&reads);
@@ -439,8 +442,9 @@ pub fn c05(out: &mut Out, rng: &mut Rng, tier: &Tier) {
     c05_type::<Kmer16, u32>(out, rng, tier, nb, &mut stats);
     c05_type::<VarIntKmer<u64, K31>, u8>(out, rng, tier, nb, &mut stats);
     c05_type::<Kmer32, u32>(out, rng, tier, nb, &mut stats);
-    if tier.thorough && tier.shard == 0 {
-        saturating::<Kmer4>(out, &mut stats);
+    // every run (one shard): a k-mer with more than 65535 observations - the saturating u16 count
+    if tier.shard == 0 {
+        saturating::<Kmer4>(out, &mut stats, tier.thorough);
     }
     stat_line(out, &stats);
 }
